@@ -241,6 +241,9 @@ def render_numeric_enc(E, enc, opts=None):
     else:
         if not (opts.get("omit_defaults") and enc["fmt"] == "IEEE754"):
             attrib["encoding"] = enc["fmt"]
+        if opts.get("legacy_float_names") and enc["fmt"] in ("IEEE754", "MILSTD_1750A"):
+            # spellings the library accepts (with a warning) as synonyms
+            attrib["encoding"] = {"IEEE754": "IEEE-754", "MILSTD_1750A": "MIL-1750A"}[enc["fmt"]]
         tag = "FloatDataEncoding"
     if not (opts.get("omit_defaults") and enc["order"] == BE):
         attrib["byteOrder"] = enc["order"]
